@@ -507,6 +507,19 @@ def check_strictness(rule, root=None):
             if kind in TRACING and not js:
                 rule.lost("conditional jumps in %s %s" % (kind, name))
                 continue
+            # after (v)comiss an unordered pair sets CF: jb / jbe / jc are taken for a NaN operand unless a `jp`
+            # earlier in the sequence already sent NaNs elsewhere (ja is false for unordered operands)
+            if kind in TRACING:
+                screened = False
+                for x in M.flat_ins(b):
+                    if x.label is not None:
+                        continue
+                    if x.mnem in ("comiss", "vcomiss", "ucomiss", "vucomiss"):
+                        screened = False
+                    elif x.mnem in ("jp", "jnp"):
+                        screened = True
+                    elif x.mnem in ("jb", "jbe", "jc", "jnae", "jna") and not screened:
+                        rule.bad("%s|%s|%s|nan" % (kind, name, x.mnem), "%s %s branches on `%s` before any `jp`: the carry flag is also set when an operand is NaN, so a NaN operand records a decided choice where the interpreter records Both" % (kind, name, x.mnem), "%s:%d" % (path_of(kind), x.ln))
             for x in js:
                 if (x.mnem in NONSTRICT) == rust_strict:
                     rule.bad("%s|%s|%s" % (kind, name, x.mnem), "%s %s branches on `%s` but the interpreter decides this choice with a %s comparison: the two disagree when the operands touch" % (kind, name, x.mnem, "strict" if rust_strict else "non-strict"), "%s:%d" % (path_of(kind), x.ln))
